@@ -1,4 +1,5 @@
 import NflowsModel.Audit.Tool
 import NflowsModel.Properties.C11
+import NflowsModel.Properties.C11F
 
 #audit_namespace Properties.C11
